@@ -302,6 +302,18 @@ func ParseEvent(ev sdkutil.Event) (sdkutil.ModuleEvent, error) {
 			return nil, err
 		}
 		return NewEventGroupClosed(gid), nil
+	case evActionGroupPaused:
+		gid, err := ParseEVGroupID(ev.Attributes)
+		if err != nil {
+			return nil, err
+		}
+		return NewEventGroupPaused(gid), nil
+	case evActionGroupStarted:
+		gid, err := ParseEVGroupID(ev.Attributes)
+		if err != nil {
+			return nil, err
+		}
+		return NewEventGroupStarted(gid), nil
 	default:
 		return nil, sdkutil.ErrUnknownAction
 	}
